@@ -1,0 +1,12 @@
+//! Verification hooks (compiled only with `--cfg decmathlib_rs_verif`).
+//! Read-only observation points; nothing here changes the behaviour of the library.
+
+use crate::d128::d128;
+
+/// Raw 128 bits of a value (bit 127 = sign).
+pub fn to_bits(x: &d128) -> u128 {
+    #[cfg(target_endian = "big")]
+    return ((x.w[0] as u128) << 64) | (x.w[1] as u128);
+
+    ((x.w[1] as u128) << 64) | (x.w[0] as u128)
+}
